@@ -3,6 +3,8 @@ package main
 import (
 	"fmt"
 	"go/types"
+
+	"golang.org/x/tools/go/ssa"
 	"math/big"
 	"os"
 	"regexp"
@@ -536,6 +538,95 @@ func init() {
 		it.strLenTerm(t)
 		return &StrV{T: t}
 	}
+	// cosmos-sdk paginated store reads. A request without an explicit limit is served with the SDK's default page
+	// (query.DefaultLimit = 100 entries). Stores of that size are beyond what this executor enumerates, so the default page
+	// is a symbolic constant L >= 1 (the same for every call on a path): code that is right for every L - in particular code
+	// that follows NextKey, or asks for an explicit limit - is unaffected, code that silently relies on "one default page is
+	// everything" is shown wrong on a store of two entries with L = 1, which scales to 101 entries with L = 100.
+	paginate := func(it *Interp, a []Val) Val {
+		view := storeViewOf(it, a[0])
+		var limit *Term
+		offsetZero, keyEmpty := true, true
+		if p, ok := a[1].(Ptr); ok && p != nil {
+			sv, ok := (*p).(*StructV)
+			if !ok {
+				it.fail("query pagination: unexpected page request %s", it.describe(*p))
+			}
+			st := sv.T.Underlying().(*types.Struct)
+			for i := 0; i < st.NumFields(); i++ {
+				switch st.Field(i).Name() {
+				case "Limit":
+					limit = sv.F[i].(*Term)
+				case "Offset":
+					if o := sv.F[i].(*Term); !o.IsConst() || o.val.Sign() != 0 {
+						offsetZero = false
+					}
+				case "Key":
+					if k := sv.F[i].(*StrV); !(k.Nil || (k.IsB && len(k.Bytes) == 0 && k.T == nil)) {
+						keyEmpty = false
+					}
+				}
+			}
+		}
+		if !offsetZero || !keyEmpty {
+			it.fail("query pagination with an offset or a start key is not modelled")
+		}
+		if limit != nil && !limit.IsConst() {
+			it.fail("query pagination with a symbolic limit is not modelled")
+		}
+		if limit == nil || limit.val.Sign() == 0 {
+			limit = Var("sdk.query.DefaultLimit", bvSort(64))
+			it.p.assertAxiom(BVCmp("bvuge", limit, BVu(64, 1)))
+		}
+		iter := it.storePrefixIterator(view, strLit(""), false).(IfaceV).V.(*Native)
+		d := iter.Data.(*iterData)
+		hits := 0
+		var next Val = &StrV{IsB: true, Nil: true}
+		for i := range d.keys {
+			acc := it.p.branch(BVCmp("bvult", BVu(64, uint64(hits)), limit))
+			if !acc && len(a) == 3 {
+				// filtered variant keeps walking (to count); the plain variant stops at the page end
+			}
+			if !acc {
+				next = d.keys[i]
+				if len(a) != 3 {
+					break
+				}
+			}
+			var r Val
+			if len(a) == 3 && isFiltered(a[2]) {
+				r = it.call(a[2], []Val{d.keys[i], d.vals[i], Bool(acc)}, nil)
+				t := r.(Tuple)
+				if e, ok := t[1].(IfaceV); ok && !e.IsNil() {
+					return Tuple{Ptr(nil), t[1]}
+				}
+				if acc && it.p.branch(t[0].(*Term)) {
+					hits++
+				}
+			} else {
+				if !acc {
+					break
+				}
+				r = it.call(a[2], []Val{d.keys[i], d.vals[i]}, nil)
+				if e, ok := r.(IfaceV); ok && !e.IsNil() {
+					return Tuple{Ptr(nil), r}
+				}
+				hits++
+			}
+		}
+		resp := it.zero(pageResponseType(it))
+		if rs, ok := resp.(*StructV); ok {
+			st := rs.T.Underlying().(*types.Struct)
+			for i := 0; i < st.NumFields(); i++ {
+				if st.Field(i).Name() == "NextKey" {
+					rs.F[i] = next
+				}
+			}
+		}
+		return Tuple{Ptr(newVal(resp)), IfaceV{}}
+	}
+	models["github.com/cosmos/cosmos-sdk/types/query.FilteredPaginate"] = paginate
+	models["github.com/cosmos/cosmos-sdk/types/query.Paginate"] = paginate
 	execThrough[sdkT+".NewIntFromString"] = true
 }
 
@@ -687,4 +778,28 @@ func init() {
 		return out
 	}
 	models["os.RemoveAll"] = func(it *Interp, a []Val) Val { return IfaceV{} }
+}
+
+// isFiltered: the callback of query.FilteredPaginate takes (key, value, accumulate); the one of query.Paginate (key, value).
+func isFiltered(fn Val) bool {
+	var sig *types.Signature
+	switch f := fn.(type) {
+	case *ssa.Function:
+		sig = f.Signature
+	case *Closure:
+		sig = f.Fn.Signature
+	}
+	return sig != nil && sig.Params().Len() == 3
+}
+
+func pageResponseType(it *Interp) types.Type {
+	for _, p := range it.prog.AllPackages() {
+		if p.Pkg.Path() == "github.com/cosmos/cosmos-sdk/types/query" {
+			if t := p.Type("PageResponse"); t != nil {
+				return t.Type()
+			}
+		}
+	}
+	it.fail("query.PageResponse type not found")
+	return nil
 }
